@@ -455,6 +455,45 @@ def clause6_unique(ctx, P):
     ar = P.fn("router.c:alloc_routing_request")
     ctx.ob("C03.6 R-WHO", ar, "fill:once", len(ar.calls("fill_routed_request_id")) == 1 and len(P.callers_of(f)) == 1,
            "generated id must be filled exactly once per routing entry")
+    # the id is never cut: the room reserved for it is the length snprintf measured for the same text, and nothing caps it (the
+    # counter and the requester's address, which make the id unique, are at its END)
+    cs = P.fn("router.c:calculate_size_for_routed_request_id")
+    capped = []
+    for i in cs.all_insts():
+        if i.op == "ret" and i.a:
+            lv, _ = Q.leaves(P, cs, i.a[0], through_loads=False)
+            for l in lv:
+                if not (Q.is_call_to(l, "snprintf") or (l[0] == "op" and Q.mentions(l, lambda x: Q.is_call_to(x, "snprintf")))):
+                    capped.append(l)
+    ctx.ob("C03.6 R-BOUND", cs, "id-length-is-the-measured-length", not capped,
+           "the size reserved for the routed request id is not always the length snprintf() measured (%s): a cut id loses the counter "
+           "and the requester's address at its end, so two in-flight requests can share one key" % ", ".join(fmt_term(c) for c in capped[:2]))
+    for c in ar.calls("fill_routed_request_id"):
+        szt = P.term(ar, c.a[1])
+        ctx.ob("C03.6 R-PAIR", ar, "id-filled-with-the-measured-length", Q.is_call_to(szt, "calculate_size_for_routed_request_id"),
+               "fill_routed_request_id() is given %s as the size, expected the measured length" % fmt_term(szt))
+    # a missing copy of the caller's id means 'the caller sent none': so the copy is checked whenever the caller did send one
+    nst = 0
+    badv = None
+    for v in Q.path_views(ctx, P, ar):
+        for _, i in v.insts():
+            if i.op == "store":
+                dt = P.term(ar, i.a[1])
+                if dt[0] == "field" and dt[2] == "struct.routing_request" and dt[3] == "origin_request_id":
+                    nst += 1
+                    val = v.resolve(i.a[0])
+                    if P.is_null(val):
+                        # must be the 'caller sent no id' path
+                        ok = v.has_atom(lambda a, p: a[0] == "cmp" and a[2] == ("param", 2, ar.params[2]["name"]) and a[3] == ("null",) and Q._poleq(a, p))
+                    else:
+                        vt = P.term(ar, val)
+                        ok = Q.is_call_to(vt, "cJSON_Duplicate") and \
+                            v.has_atom(lambda a, p, vt=vt: a[0] == "cmp" and a[2] == vt and a[3] == ("null",) and not Q._poleq(a, p))
+                    if not ok:
+                        badv = v
+    ctx.ob("C03.4 R-NULL", ar, "id-copy-checked", badv is None and nst > 0,
+           "the routing entry's copy of the caller's id is stored without a test that the copy succeeded: a failed copy looks like "
+           "'the caller sent no id', the request is routed and the caller never gets an answer", witness=badv.witness() if badv else None)
 
 
 def run(ctx):
